@@ -6,7 +6,9 @@ from ..runner import jval
 from ..valgen import Gen, copy_value
 from ..condgen import CondGen
 from ..rulegen import RuleGen
-from ..terms import valida
+from ..terms import valida, Leaf
+from ..pathterms import PathT, Prim
+from ..ruleterms import RuleT
 from . import schema_common as sc
 
 PROP = "C06"
@@ -44,7 +46,12 @@ def direct_checks(rts, perms, doc):
         if vd.is_valid != all(t.is_valid for t in vd.rule_tests) or vd.num_failures != sum(len(t.failures) for t in vd.rule_tests) \
                 or vd.num_rules_tested != sum(1 for t in vd.rule_tests if t.tested):
             out.append({"kind": "direct", "what": "aggregate is not the conjunction / sum of the rule verdicts", "perm": list(perm)})
-        rep = vd.get_failures_string()
+        try:
+            rep = vd.get_failures_string()
+        except Exception as e:
+            out.append({"kind": "direct", "what": f"get_failures_string() raised {type(e).__name__}", "perm": list(perm),
+                        "schema": [r.descr()[:200] for r in order], "doc": jval(doc)})
+            continue
         if not isinstance(rep, str):
             out.append({"kind": "direct", "what": f"get_failures_string() returned {type(rep).__name__}", "perm": list(perm),
                         "schema": [r.descr()[:200] for r in order], "doc": jval(doc)})
@@ -61,15 +68,35 @@ def direct_checks(rts, perms, doc):
     return out
 
 
+HASH_EQUAL = [
+    ({"a": [10, 20], "b": 3}, [("a", 1), ("a", 1.0), ("b",)]),
+    ({"a": [10, 20]}, [("a", 1.0), ("a", 1)]),
+    ({"a": {1: "x", "k": "y"}}, [("a", 1), ("a", True), ("a", 1.0)]),
+    ([[1, 2], [3]], [(0, 1), (0, True), (0.0, 1)]),
+    ({0: "z", "l": ["p"]}, [(0,), (False,), ("l", 0), ("l", 0.0)]),
+]
+
+
 def run(tier, seed, model_ok, spec_ok, replay=None):
     g = Gen(seed)
     rg = RuleGen(CondGen(g))
     n = 120 if tier == "quick" else 3000
     cases, direct, nperm = [], [], 0
+    # rules whose concrete paths are equal as tuples / hash-equal but of different types must not share anything
+    for doc, paths in HASH_EQUAL:
+        rts = [RuleT(PathT([Prim(x) for x in p]), Leaf("Value", "is_instance", [int]), []) for p in paths]
+        perms = list(itertools.permutations(range(len(rts))))
+        for perm in perms:
+            c = sc.make_case([rts[i] for i in perm], copy_value(doc))
+            if c:
+                cases.append(c)
+        direct.extend(direct_checks(rts, perms, doc))
+        nperm += len(perms)
     for _ in range(n):
         doc = g.document(4, 4)
         k = g.r.choice([0, 1, 2, 2, 3, 3, 4, 5, 6] if tier == "quick" else [0, 1, 2, 3, 4, 5, 6, 8, 12])
         rts = rg.schema(doc, k, cast_p=0.0)
+        k = len(rts)          # the generator may add a sibling rule (equal / hash-equal path)
         idx = list(range(k))
         if k <= 4:
             perms = list(itertools.permutations(idx))
